@@ -3,7 +3,7 @@ Proof: Props/C08.lean over the regenerated Gen.Tables (kernel evaluation, exhaus
 Tie: translator (dump_tables.c -> Gen/Tables.lean) + correspondence of the real C look-up
 functions against the model look-ups on every row and on perturbed names."""
 import json, os, random, subprocess
-import common
+import common, gen_typed
 from common import log
 
 
@@ -72,7 +72,11 @@ def run(res, args):
     b = common.Build('asan')
     with common.lean_lock():
         d, changed = common.regenerate(b)
-    ok, failing = common.proof_step(res, ['Wbxml.Props.C08'], 'Wbxml.Props.C08', extra_targets=['driver', 'c08search'])
+    with common.lean_lock():
+        typed_rows, nprobes, tchanged = gen_typed.regenerate(b, d, common.LEAN)
+    res.coverage['typed_probes'] = nprobes
+    res.coverage['typed_rows'] = len(typed_rows)
+    ok, failing = common.proof_step(res, ['Wbxml.Props.C08', 'Wbxml.Props.C08Typed'], 'Wbxml.Props.C08', extra_targets=['driver', 'c08search'])
     res.coverage['regenerated'] = changed
     known = [k for k in common.load_known()['findings'] if k['property'] == 'C08']
 
@@ -120,6 +124,27 @@ def run(res, args):
     c_answers = {lines[i]: c_out[i] for i in range(min(len(lines), len(c_out)))}
     oracle_bad = impl_oracle(d, c_answers)
 
+    # ---- typed content: rows where the encoder's typed form is not what the parser decodes, and
+    # pinned typed rows that lost their handling or their name (evaluated on the probe results)
+    import json as _json, re as _re
+    exp_src = open(os.path.join(common.LEAN, 'Wbxml', 'Model', 'TypedExpected.lean')).read()
+    expected = [(m.group(1) == 'true', int(m.group(2)), int(m.group(3)), int(m.group(4)), bytes(int(x) for x in m.group(5).split(',') if x).hex(), int(m.group(6)), int(m.group(7)))
+                for m in _re.finditer(r'⟨(true|false), (\d+), (\d+), (\d+), \[([0-9,]*)\], (\d+), (\d+)⟩', exp_src)]
+    K = gen_typed.KINDS
+    obs = {(r['kind'] == 'attr', r['lang'], r['page'], r['token']): r for r in typed_rows}
+    for r in typed_rows:
+        if r['enc'] != 'raw' and r['dec'] != r['enc']:
+            res.violation({'kind': 'typed-mismatch', 'row': r,
+                           'explain': 'the encoder writes this element/attribute in a typed binary form that the parser does not decode with the same type',
+                           'replay': f"ENCW 3 0 0 0 <tree with element page {r['page']} token {r['token']} of language {r['lang']} and text 258 / 20010419T063913A>, then PARSE {r['lang']} 0 <result>"},
+                          f"typed-{r['lang']}-{r['page']}-{r['token']}")
+    for e in expected:
+        r = obs.get(e[:4])
+        if r is None or r['name'] != e[4] or K.get(r['dec'], 9) != e[5] or (e[6] != 0 and K.get(r['enc'], 9) != e[6]):
+            if not any(v[1].startswith(f'typed-{e[1]}-{e[2]}-{e[3]}') for v in res.violations):
+                res.violation({'kind': 'typed-handling-lost', 'expected(isAttr,lang,page,token,name,dec,enc)': e, 'observed': r,
+                               'explain': 'a (language, page, token) singled out for typed handling no longer gets it, or its table row changed name'},
+                              f'typedlost-{e[1]}-{e[2]}-{e[3]}')
     # ---- decide
     for f in new_items:
         res.violation({'kind': 'table-row', 'item': f,
